@@ -152,6 +152,7 @@ func (in *Interp) builtin(g *G, fr *Frame, b *ssa.Builtin, args []Value, call *s
 			pf := fr.caller.caller
 			if pf.panicking && pf.runningDefers {
 				pf.panicking = false
+				g.psite = ""
 				return pf.panicVal
 			}
 		}
